@@ -289,17 +289,20 @@ def str_rsplit(s, sep=None, maxsplit=-1):
 
 def _in_chars(c, chars):
     """z3: single-character string c is one of the characters of `chars` (concrete str)"""
-    return z3.Or(*[c == z3.StringVal(ch) for ch in chars]) if chars else z3.BoolVal(False)
+    return z3.Or(*[c == core.zstrval(ch) for ch in chars]) if chars else z3.BoolVal(False)
 
 
-_WS = ' \t\n\r\x0b\x0c\x1c\x1d\x1e\x1f\x85\xa0'
+# every character CPython's str.isspace() accepts (what strip()/split() without arguments remove)
+_WS = ('\t\n\x0b\x0c\r\x1c\x1d\x1e\x1f \x85\xa0\u1680\u2000\u2001\u2002\u2003\u2004\u2005\u2006\u2007\u2008'
+       '\u2009\u200a\u2028\u2029\u202f\u205f\u3000')
+assert all(ch.isspace() for ch in _WS)
 
 
 def str_rstrip(s, chars=None):
     if isinstance(chars, SStr):
         raise HarnessError('rstrip with symbolic chars')
     if chars is None:
-        chars = _WS       # NB: unicode whitespace beyond latin-1 is outside the model (stated)
+        chars = _WS
     zs = z(s)
     for k in range(MAX_STRIP + 1):
         n = z3.Length(zs)
@@ -327,6 +330,13 @@ def str_lstrip(s, chars=None):
 
 def str_strip(s, chars=None):
     return str_rstrip(str_lstrip(s, chars), chars) if isinstance(s, SStr) else s.strip(chars)
+
+
+def str_expandtabs(s, tabsize=8):
+    """exact only for strings that cannot contain a tab (declared with exclude=...)"""
+    if all(_free_of(a, '\t') for a in atoms(z(s))):
+        return s
+    raise HarnessError('expandtabs on a symbolic string that may contain a tab')
 
 
 def str_removeprefix(s, p):
@@ -494,7 +504,7 @@ STR_METHODS = {
     'rfind': str_rfind, 'split': str_split, 'rsplit': str_rsplit, 'rstrip': str_rstrip,
     'lstrip': str_lstrip, 'strip': str_strip, 'replace': str_replace, 'lower': str_lower,
     'upper': str_upper, 'join': str_join, 'format': str_format, 'removeprefix': str_removeprefix,
-    'removesuffix': str_removesuffix, 'isidentifier': str_isidentifier_ascii, 'count': str_count,
+    'removesuffix': str_removesuffix, 'expandtabs': str_expandtabs, 'isidentifier': str_isidentifier_ascii, 'count': str_count,
     'encode': str_encode, 'splitlines': str_splitlines,
 }
 
